@@ -242,6 +242,9 @@ func crashCase(env *core.Env, idx int, prop, bias string) *core.CaseResult {
 	limit := 120
 	if env.Thorough() {
 		limit = 2000
+		if conc || p.BigTxnRows > 0 || p.PreEpochs > 0 {
+			limit = 300 // restarts of these classes redo megabytes of log / large images: fewer, evenly spread crash points per history
+		}
 	}
 	chosen := map[int]bool{}
 	if len(points) > limit {
@@ -256,6 +259,9 @@ func crashCase(env *core.Env, idx int, prop, bias string) *core.CaseResult {
 	tornEvery := 5
 	if env.Thorough() {
 		tornEvery = 1
+		if conc || p.BigTxnRows > 0 || p.PreEpochs > 0 {
+			tornEvery = 4
+		}
 	}
 	im := &rec.Image{}
 	if h.Base != nil {
@@ -357,7 +363,7 @@ func crashCase(env *core.Env, idx int, prop, bias string) *core.CaseResult {
 			// torn variants of event k (image = prefix k-1 + part of e)
 			if nPoint%tornEvery == 0 {
 				for _, cut := range tearCuts(e, env.Thorough()) {
-					if (prop == "C02" || conc) && e.Kind == rec.WritePage {
+					if (prop == "C02" || conc || p.BigTxnRows > 0 || p.PreEpochs > 0) && e.Kind == rec.WritePage {
 						continue // C02 quantifies over prefixes of the I/O trace; torn page writes are C01's quantifier (listed finding there)
 					}
 					t := im.Clone()
